@@ -99,6 +99,9 @@ def run(chk, prog):
     chk.floor("R1-arguments", n1, 40)
 
     # ---- R2 ----------------------------------------------------------------------------------
+    rec0 = prog.record("vfps::DynamicRFKickMap")
+    qt = [f_["ctype"] for f_ in rec0["fields"] if f_["name"] == "_next_modulation"]
+    A.require(qt and "std::queue<" in qt[0], "DynamicRFKickMap::_next_modulation is not a std::queue any more (%s): the push/front/pop rules of R3 do not apply to it" % qt)
     cm = prog.fn("vfps::DynamicRFKickMap::__calcModulation")
     chk.used(cm)
     s = I.scan(cm)
